@@ -13,12 +13,14 @@ rm -rf "$OUT/demo"; cp -r "$SEED/demo" "$OUT/demo" 2>/dev/null
 cp "$SEED/notes.md" "$OUT/notes.md" 2>/dev/null
 echo "== tests with the change"
 ( cd "$WT" && cargo test --workspace --offline 2>&1 | grep -E "test result|FAILED" | awk '{p+=$4; f+=$6} END {print "passed="p" failed="f}' )
+( cd "$WT" && git checkout -q -- . && git apply "$OUT/patch.diff" && cargo build --workspace --offline -q 2>/dev/null )
 echo "== demo with the change (expect non-zero)"
 ( cd "$SEED/demo" && timeout 300 bash ./run.sh >/tmp/seed-$ID-with.log 2>&1; echo "exit=$?" )
-( cd "$WT" && git stash -q )
+# (no `git stash`: the stash is shared by all worktrees of a repository)
+( cd "$WT" && git checkout -q -- . && cargo build --workspace --offline -q 2>/dev/null )
 echo "== demo without the change (expect zero)"
 ( cd "$SEED/demo" && timeout 300 bash ./run.sh >/tmp/seed-$ID-without.log 2>&1; echo "exit=$?" )
-( cd "$WT" && git stash pop -q )
+( cd "$WT" && git apply "$OUT/patch.diff" && cargo build --workspace --offline -q 2>/dev/null )
 echo "== checks against the change"
 cd /repo && git apply "$OUT/patch.diff" || { echo "PATCH DOES NOT APPLY"; exit 3; }
 for c in $CHECKS; do
